@@ -9,6 +9,7 @@ a = ap.parse_args()
 seed = os.path.abspath(a.seed); ROOT = os.path.dirname(os.path.dirname(os.path.abspath(__file__)))
 wt = tempfile.mkdtemp(prefix='mut-', dir='/var/tmp'); os.rmdir(wt)
 res = dict(seed=seed, at=time.strftime('%F %T'))
+old = json.load(open(os.path.join(seed, 'result.json'))) if os.path.exists(os.path.join(seed, 'result.json')) else {}
 try:
     subprocess.run(['git', '-C', '/repo', 'worktree', 'add', '-q', '--detach', wt, 'HEAD'], check=True)
     r = subprocess.run(['git', '-C', wt, 'apply', os.path.join(seed, 'patch.diff')], capture_output=True, text=True)
@@ -26,7 +27,8 @@ try:
     if a.suite:
         t = subprocess.run([os.path.join(ROOT, 'tools', 'mutant_tests.py'), wt, '--jobs', a.jobs], capture_output=True, text=True)
         res['suite'] = dict(rc=t.returncode, tail=t.stdout[-1500:]); print('suite (affected part): rc=%d\n%s' % (t.returncode, t.stdout[-800:]))
-    res['checks'] = {}
+    res['checks'] = dict(old.get('checks') or {})
+    if 'suite' not in res and 'suite' in old: res['suite'] = old['suite']
     for pid in a.pids:
         env = dict(os.environ, NMV_REPO=wt, NMV_OUT=os.path.join(seed, 'run'))
         cmd = [os.path.join(ROOT, 'check'), pid, '--tier', a.tier, '--jobs', a.jobs] + (['--only', a.only] if a.only else [])
